@@ -66,6 +66,8 @@ type Sols = Vec<[f64; 6]>;
 #[derive(Clone, Debug, PartialEq)]
 pub struct QObs {
     pub sols: [Sols; 4],
+    /// `collides()` of the same robot for every returned solution of the four entry points
+    pub reported: [Vec<bool>; 4],
     /// bit patterns of everything the delegated queries returned
     pub delegated: Vec<u64>,
     /// positioned_robot: link transforms, tool transform, env poses (bits), vertex counts
@@ -143,6 +145,7 @@ fn mesh_bits(m: &parry3d::shape::TriMesh, out: &mut Vec<u64>) {
 
 fn one_query(robot: &KinematicsWithShape, q: &Query) -> QObs {
     let sols: [Sols; 4] = std::array::from_fn(|w| entry(robot, w, q));
+    let reported: [Vec<bool>; 4] = std::array::from_fn(|w| sols[w].iter().map(|s| robot.collides(s)).collect());
     let deleg = delegated(robot, &q.q);
     let mut pos = Vec::new();
     let pr = robot.positioned_robot(&q.q);
@@ -164,7 +167,7 @@ fn one_query(robot: &KinematicsWithShape, q: &Query) -> QObs {
         iso32_bits(&e.pose, &mut pos);
         mesh_bits(&e.mesh, &mut pos);
     }
-    QObs { sols, delegated: deleg, positioned: pos }
+    QObs { sols, reported, delegated: deleg, positioned: pos }
 }
 
 fn execute(robot: &Arc<KinematicsWithShape>, case: &Case, cfg: &SimCfg) -> SimOut<Vec<QObs>> {
@@ -368,6 +371,35 @@ fn judge_phase(
                         clause: format!("a:not-a-solution{phase}"),
                         signature: format!("C11/{}/not-a-solution{phase}", ENTRY[w]),
                         detail: format!("{} returned vector #{p} {:?} which is not the next solution of the underlying stack (foreign value, wrong order or duplicate) (query #{qi})", ENTRY[w], got[p]),
+                        q: qi,
+                        cfgs: vec![ci],
+                    });
+                }
+            }
+            for w in 0..4 {
+                if let Some(k) = o.reported[w].iter().position(|r| *r) {
+                    // unless the oracle itself sees a don't-care pair there
+                    let b = oracle::brute_q(&oc, &o.sols[w][k], &case.cell.safety);
+                    if !b.any_dont_care() {
+                        fails.push(Fail {
+                            clause: format!("a:returned-but-reported-colliding{phase}"),
+                            signature: format!("C11/{}/returned-but-reported-colliding{phase}", ENTRY[w]),
+                            detail: format!("{} returned solution #{k} although collides() of the same robot reports it colliding (query #{qi})", ENTRY[w]),
+                            q: qi,
+                            cfgs: vec![ci],
+                        });
+                    }
+                }
+            }
+            // the body meshes are placed at link poses that are genuine forward kinematics
+            if qi == 0 && ci == 0 && case.queries[qi].q.iter().all(|x| x.is_finite() && x.abs() < 50.0) {
+                let reported = robot.kinematics.forward_with_joint_poses(&case.queries[qi].q);
+                let (dt, dr) = oracle::placement_error(&case.cell, &reported, &case.queries[qi].q);
+                if dt > 1e-9 || dr > 1e-8 {
+                    fails.push(Fail {
+                        clause: format!("d:link-placement{phase}"),
+                        signature: format!("C11/link-placement{phase}"),
+                        detail: format!("the link poses at which the meshes are placed deviate from forward kinematics of the OPW geometry by {dt:.3e} m / {dr:.3e} rad"),
                         q: qi,
                         cfgs: vec![ci],
                     });
